@@ -9,64 +9,111 @@ open HcipyVerif.Proto HcipyVerif.Scheduler
 of Properties/C20.lean (`history_inv`, `history_conservation`, …) speak about. -/
 structure St where
   h : Hist := hinit
-  /-- callback id ↦ (delay, child id) pairs: the callback schedules child at own time + delay -/
-  tbl : List (Nat × List (Rat × Nat)) := []
+  /-- callback id ↦ (delay, child id, clock-relative?) triples: the callback schedules the child at
+  its own time + delay, or (clock-relative, the idiom `add_callback(self.t + period, ...)`) at the
+  clock it sees + delay -/
+  tbl : List (Nat × List (Rat × Nat × Bool)) := []
+  /-- what every callback executed so far scheduled (`fireTable`), over the whole history -/
+  ftbl : List (Entry × List (Rat × Nat)) := []
+  /-- the interface calls so far, and the fuel of the evolves if it was the same for all -/
+  ops : List Op := []
+  fuel : Option Nat := none
+  fuelSame : Bool := true
 
-def kidsOf (tbl : List (Nat × List (Rat × Nat))) (e : Entry) : List (Rat × Nat) :=
+/-- the callbacks as the real ones are: they see the clock -/
+def kidsOfC (tbl : List (Nat × List (Rat × Nat × Bool))) (clk : Rat) (e : Entry) : List (Rat × Nat) :=
   match tbl.find? (·.1 = e.id) with
-  | some (_, l) => l.map fun (d, c) => (e.time + d, c)
+  | some (_, l) => l.map fun (d, c, rel) => ((if rel then clk else e.time) + d, c)
   | none => []
+
+/-- the entry-only callbacks of a table without clock-relative children -/
+def kidsOf (tbl : List (Nat × List (Rat × Nat × Bool))) (e : Entry) : List (Rat × Nat) :=
+  kidsOfC tbl e.time e
+
+def clockRel (tbl : List (Nat × List (Rat × Nat × Bool))) : Bool :=
+  tbl.any fun p => p.2.any fun k => k.2.2
+
+def showIv (p : Rat × Rat) : String := s!"{showRat p.1}>{showRat p.2}"
 
 def showEvent : Event → String
   | .integrate dt => s!"I:{showRat dt}"
   | .fire e clk => s!"F:{showRat e.time}:{e.ctr}:{e.id}:{showRat clk}"
 
 def showStatus : Status → String
-  | .ok => "ok" | .backwards => "value" | .emptyQueue => "index" | .outOfFuel => "fuel"
+  | .ok => "ok" | .backwards => "value" | .outOfFuel => "fuel"
 
 def showEntry (e : Entry) : String := s!"{showRat e.time}:{e.ctr}:{e.id}"
 
-/-- consecutive entries strictly increasing (= `List.Pairwise Entry.lt`, the order being transitive) -/
-def sortedB : List Entry → Bool
-  | x :: y :: rest => decide (x.lt y) && sortedB (y :: rest)
-  | _ => true
-
-/-- pairs `d1:c1,d2:c2` -/
-def parsePairs? (s : String) : Option (List (Rat × Nat)) :=
+/-- pairs `d1:c1,d2:c2`; a third field `c` marks a clock-relative child (`o`: relative to the
+callback's own time, the default) -/
+def parsePairs? (s : String) : Option (List (Rat × Nat × Bool)) :=
   if s == "-" then some [] else
   (s.splitOn ",").mapM fun p =>
     match p.splitOn ":" with
-    | [d, c] => do let d ← parseRat? d; let c ← parseNat? c; pure (d, c)
+    | [d, c] => do let d ← parseRat? d; let c ← parseNat? c; pure (d, c, false)
+    | [d, c, "o"] => do let d ← parseRat? d; let c ← parseNat? c; pure (d, c, false)
+    | [d, c, "c"] => do let d ← parseRat? d; let c ← parseNat? c; pure (d, c, true)
     | _ => none
 
 def step (st : St) : List String → St × String
   | ["reset"] => ({}, "ok")
   | ["add", t, id] =>
     match parseRat? t, parseNat? id with
-    | some t, some id => ({ st with h := stepOp (kidsOf st.tbl) 0 st.h (.add t id) }, "ok")
+    | some t, some id =>
+      ({ st with h := stepOp (kidsOf st.tbl) 0 st.h (.add t id), ops := st.ops ++ [.add t id] }, "ok")
     | _, _ => (st, "bad-op")
   | ["kids", id, pairs] =>
     match parseNat? id, parsePairs? pairs with
     | some id, some l => ({ st with tbl := (id, l) :: st.tbl.filter (·.1 ≠ id) }, "ok")
     | _, _ => (st, "bad-op")
-  | ["evolve", T, fuel, which] =>
+  | ["eps", x] =>
+    -- the threshold constant read out of the running code, compared with the model's `eps`
+    match parseRat? x with
+    | some x => (st, if x = eps then "ok" else s!"differs:{showRat eps}")
+    | none => (st, "bad-op")
+  | ["evolve", T, fuel, "new"] =>
     match parseRat? T, parseNat? fuel with
     | some T, some fuel =>
-      let run := if which == "old" then evolveUntilOld (kidsOf st.tbl) fuel st.h.s T
-                 else evolveUntil (kidsOf st.tbl) fuel st.h.s T
-      let h' := if which == "old" then { st.h with s := run.s, trace := st.h.trace ++ run.trace }
-                else stepOp (kidsOf st.tbl) fuel st.h (.evolve T)
+      -- the run with callbacks that see the clock, as the real ones do
+      let runC := evolveUntilC (kidsOfC st.tbl) fuel st.h.s T
+      -- ... read as entry-only callbacks (what each executed callback scheduled, over the history):
+      -- `loop`/`evolveUntil`/`stepOp`, the objects of the theorems, must replay the very same run
+      -- (`evolveUntilC_eq_evolveUntil_table`); without clock-relative children `kidsOf` itself is used
+      -- (the table path only for tables with clock-relative children: the table lookup is linear in the
+      -- number of callbacks executed so far)
+      let rel := clockRel st.tbl
+      let hcC := if rel then stepOpC (kidsOfC st.tbl) fuel ⟨st.h, st.ftbl⟩ (.evolve T) else ⟨st.h, st.ftbl⟩
+      let ftbl := hcC.tbl
+      let kids := if rel then tableKids ftbl else kidsOf st.tbl
+      let run := evolveUntil kids fuel st.h.s T
+      let h' := if rel then hcC.h else stepOp kids fuel st.h (.evolve T)
+      let t0 := st.h.s.t
       -- clock, counter and queue are printed from the history state the theorems are about
       let out := s!"{showStatus run.status} t={showRat h'.s.t} ctr={h'.s.ctr} trace=" ++
         ";".intercalate (run.trace.map showEvent) ++ " queue=" ++
-        ";".intercalate (h'.s.queue.map showEntry)
-      ({ st with h := h' }, out)
+        ";".intercalate (h'.s.queue.map showEntry) ++ " iv=" ++
+        ";".intercalate ((intervals t0 run.trace).map showIv) ++
+        s!" sum={showRat (sumDt run.trace)} lfc={showRat (lastFireClock t0 run.trace)}" ++
+        s!" same={decide (run = runC)}"
+      ({ st with h := h', ftbl := ftbl, ops := st.ops ++ [.evolve T],
+                 fuel := some fuel, fuelSame := st.fuelSame && (st.fuel.isNone || st.fuel == some fuel) }, out)
     | _, _ => (st, "bad-op")
   | ["hist"] =>
     let h := st.h
-    (st, s!"hz={showRat h.hz} t={showRat h.s.t} created={h.created.length} fired={(fired h.trace).length} " ++
+    -- the whole history once more through `runOps` (the object of the history theorems) with ONE
+    -- entry-only `kids` function: the final table of executed callbacks, or `kidsOf`
+    let kids := if clockRel st.tbl then tableKids st.ftbl else kidsOf st.tbl
+    let replay := if st.fuelSame then toString (decide (runOps kids (st.fuel.getD 0) hinit st.ops = h)) else "na"
+    -- the hypotheses of history_inv / history_exactly_once, decided on the model's history
+    let f := st.fuel.getD 0
+    let hyp := if st.fuelSame then
+        s!"addsfrom_hz={addsFromB (·.hz) kids f hinit st.ops} addsfrom_t={addsFromB (·.s.t) kids f hinit st.ops} " ++
+        s!"nofuelout={noFuelOutB kids f hinit st.ops}"
+      else "addsfrom_hz=na addsfrom_t=na nofuelout=na"
+    (st, s!"replay={replay} {hyp} hz={showRat h.hz} t={showRat h.s.t} created={h.created.length} fired={(fired h.trace).length} " ++
       s!"pending={h.s.queue.length} sorted={sortedB (fired h.trace)} run=" ++
-      ";".intercalate ((fired h.trace).map showEntry))
+      ";".intercalate ((fired h.trace).map showEntry) ++ " created=" ++
+      ";".intercalate (h.created.map showEntry))
   | _ => (st, "bad-op")
 
 end HcipyVerif.Driver.C20
